@@ -45,6 +45,7 @@ type e2eHistory struct {
 	DPs       []e2eDP     `json:"dps"`
 	T0        uint32      `json:"t0"`
 	BlockOnly bool        `json:"first_rotation_block_only"` // first rotation closes the metrics BLOCK but keeps the segment open
+	AgedTree  bool        `json:"first_rotation_by_size_with_tags_tree_older_than_24h,omitempty"` // size-based segment rotation that also moves the tags tree holder
 }
 
 // observation: per stage, per series index, the points returned by a selector query
@@ -173,6 +174,23 @@ func rotateBlocksOnly() error {
 	return nil
 }
 
+// the size-based rotation of a long-running server: the segment is full and its tags tree holder is more than a day old,
+// so CheckAndRotate(false) closes block and segment and moves the holder to a new tags-tree directory
+func rotateBySizeWithAgedTree() error {
+	if metrics.VerifAgeTagsTreeHolders(25*time.Hour) == 0 {
+		return fmt.Errorf("no tags tree holder")
+	}
+	old := sutils.MAX_BYTES_METRICS_SEGMENT
+	sutils.MAX_BYTES_METRICS_SEGMENT = 1
+	defer func() { sutils.MAX_BYTES_METRICS_SEGMENT = old }()
+	for _, mSeg := range metrics.GetAllMetricsSegments() {
+		if err := mSeg.CheckAndRotate(false); err != nil {
+			return err
+		}
+	}
+	return query.PopulateMetricsMetadataForTheFile_TestOnly(meta.GetLocalMetricsMetaFName())
+}
+
 func rotateAll() error {
 	for _, mSeg := range metrics.GetAllMetricsSegments() {
 		if err := mSeg.CheckAndRotate(true); err != nil {
@@ -208,7 +226,11 @@ func workerMain(args []string) {
 			out = append(out, e2eObs{Stage: "ingest0", Errs: e})
 		}
 		out = append(out, queryAll(h, "open"))
-		if h.BlockOnly {
+		if h.AgedTree {
+			if err := rotateBySizeWithAgedTree(); err != nil {
+				fail("rotate by size: " + err.Error())
+			}
+		} else if h.BlockOnly {
 			if err := rotateBlocksOnly(); err != nil {
 				fail("rotate block: " + err.Error())
 			}
@@ -542,6 +564,10 @@ func e2ePart(cfg vhlib.Config, sum *vhlib.Summary, r *vhlib.Rng) {
 		if !known && !special && hi%2 == 1 {
 			h = lateSeriesHistory(r.Fork())
 			sum.Count("e2e/late_series_history")
+		}
+		if !known && !special && hi%4 == 2 {
+			h.AgedTree = true
+			sum.Count("e2e/size_rotation_with_aged_tags_tree")
 		}
 		dir := filepath.Join(root, fmt.Sprintf("h%d", hi))
 		_ = os.MkdirAll(dir, 0o755)
